@@ -366,13 +366,14 @@ func (g *gen) script(all []*workflow.Action, n numbering, failP float64) map[str
 	return sc
 }
 
-var t0 = time.Date(2026, 1, 2, 3, 4, 5, 0, time.UTC)
+// t0: two minutes ago (only zero-ness of instants is abstracted; recovery refuses plans idle for 30 minutes)
+var t0 = time.Now().UTC().Add(-2 * time.Minute).Truncate(time.Millisecond)
 
 func (g *gen) someTime(zeroP float64) time.Time {
 	if g.r.Chance(zeroP) {
 		return time.Time{}
 	}
-	return t0.Add(time.Duration(g.r.Intn(100000)) * time.Millisecond)
+	return t0.Add(time.Duration(g.r.Intn(60000)) * time.Millisecond)
 }
 
 // status weights: NotStarted Running Completed Failed Stopped
@@ -730,6 +731,27 @@ func arbitrary(w *core.Writer, n int) {
 				if g.r.Chance(0.8) {
 					b.State.Status = workflow.Running
 				}
+				if len(b.Sequences) >= 2 && len(b.Sequences[1].Actions) >= 2 && g.r.Chance(0.3) {
+					// one sequence stops the block, another one is resumed first
+					b.State.Status = workflow.Running
+					for _, c := range groupsOfBlock(b)[:4] {
+						if c != nil {
+							c.State.Status = workflow.NotStarted
+						}
+					}
+					b.Sequences[0].State.Status = workflow.Running
+					b.Sequences[0].Actions[0].State.Status = workflow.Stopped
+					sq := b.Sequences[1]
+					sq.State.Status = workflow.Running
+					for k, a := range sq.Actions {
+						if k == 0 {
+							g.fillAction(a, []int{0, 0, 1, 0, 0})
+						} else {
+							g.fillAction(a, []int{1, 0, 0, 0, 0})
+							a.Attempts = nil
+						}
+					}
+				}
 				bt := blkTerm(b, num)
 				s := openSession(g.nonce, script, 0)
 				f.store.takeSeqs()
@@ -761,7 +783,30 @@ func arbitrary(w *core.Writer, n int) {
 					}
 				}
 			}
-			if g.r.Chance(0.6) {
+			if p.ContChecks != nil && g.r.Chance(0.3) {
+				// the rare tails of fixPlan: continuous group Failed, then a block Stopped / a block Failed / nothing started
+				calm(p.BypassChecks, p.PreChecks, p.ContChecks, p.PostChecks, 1)
+				p.State.Status = workflow.Running
+				b := p.Blocks[0]
+				switch g.r.Intn(3) {
+				case 0:
+					b.State.Status = workflow.Running
+					calm(b.BypassChecks, b.PreChecks, b.ContChecks, b.PostChecks, 0)
+					b.Sequences[0].State.Status = workflow.Running
+					b.Sequences[0].Actions[0].State.Status = workflow.Stopped
+				case 1:
+					b.State.Status = workflow.Failed
+					for _, x := range p.Blocks[1:] {
+						if x.State.Status == workflow.Stopped || x.State.Status == workflow.Running {
+							x.State.Status = workflow.NotStarted
+						}
+					}
+				default:
+					for _, x := range p.Blocks {
+						x.State.Status = workflow.NotStarted
+					}
+				}
+			} else if g.r.Chance(0.6) {
 				calm(p.BypassChecks, p.PreChecks, p.ContChecks, p.PostChecks, 0.5)
 				for _, b := range p.Blocks {
 					if g.r.Chance(0.7) {
@@ -955,30 +1000,44 @@ type firstPlanWrite struct {
 	seen   bool
 	status workflow.Status
 	start  time.Time
+	end    time.Time
 }
 
 func (v *firstPlanWrite) UpdatePlan(ctx context.Context, p *workflow.Plan) error {
 	v.mu.Lock()
 	if !v.seen {
-		v.seen, v.status, v.start = true, p.State.Status, p.State.Start
+		v.seen, v.status, v.start, v.end = true, p.State.Status, p.State.Start, p.State.End
 	}
 	v.mu.Unlock()
 	return v.Vault.UpdatePlan(ctx, p)
 }
 
 // probeEntry runs the REAL recovery on img (a fresh vault holding it) and says where Recovery went.
-func probeEntry(set *hplug.Set, img *workflow.Plan, nonce string, script map[string][]int) (entry string, info map[string]any) {
+// With waitFinal it waits for the recovered run to end (statistics); otherwise it returns as soon as the first
+// plan write was seen (arbitrary images: what the engine does afterwards is not this check's business).
+// rb is the image as the store returns it (what recovery reads), read before the Workstream is opened.
+func probeEntry(set *hplug.Set, img *workflow.Plan, nonce string, script map[string][]int, waitFinal bool) (entry string, info map[string]any, rb *workflow.Plan) {
 	ctx := context.Background()
 	info = map[string]any{}
+	// the recovery's plugin calls are attributed through the nonce INSIDE the requests: give the stored copy its own
+	old := setNonce(img, nonce)
+	defer setNonce(img, old)
 	inner, err := sqlite.New(ctx, "", set.Reg, sqlite.WithInMemory())
 	if err != nil {
 		info["error"] = err.Error()
-		return "", info
+		return "", info, nil
 	}
-	defer inner.Close(ctx)
+	if waitFinal {
+		defer inner.Close(ctx)
+	}
 	if err := inner.Create(ctx, img); err != nil {
 		info["error"] = "create: " + err.Error()
-		return "", info
+		return "", info, nil
+	}
+	rb, err = inner.Read(ctx, img.ID)
+	if err != nil {
+		info["error"] = "read: " + err.Error()
+		return "", info, nil
 	}
 	fw := &firstPlanWrite{Vault: inner}
 	s := openSession(nonce, script, 0)
@@ -986,16 +1045,28 @@ func probeEntry(set *hplug.Set, img *workflow.Plan, nonce string, script map[str
 	ws, err := coercion.New(ctx, set.Reg, fw)
 	if err != nil {
 		info["error"] = "new: " + err.Error()
-		return "", info
+		return "", info, rb
 	}
-	wctx, cancel := context.WithTimeout(ctx, 4*time.Second)
-	fin, err := ws.Wait(wctx, img.ID)
-	cancel()
-	if err != nil {
-		info["hang"] = true
+	if waitFinal {
+		wctx, cancel := context.WithTimeout(ctx, 4*time.Second)
+		fin, err := ws.Wait(wctx, img.ID)
+		cancel()
+		if err != nil {
+			info["hang"] = true
+		} else {
+			info["final"] = stTerm(fin.State.Status)
+			info["running_left"] = countRunning(fin)
+		}
 	} else {
-		info["final"] = stTerm(fin.State.Status)
-		info["running_left"] = countRunning(fin)
+		for t := 0; t < 2000; t++ {
+			fw.mu.Lock()
+			seen := fw.seen
+			fw.mu.Unlock()
+			if seen {
+				break
+			}
+			time.Sleep(time.Millisecond)
+		}
 	}
 	s.mu.Lock()
 	info["plugin_calls"] = len(s.calls)
@@ -1003,26 +1074,115 @@ func probeEntry(set *hplug.Set, img *workflow.Plan, nonce string, script map[str
 	fw.mu.Lock()
 	defer fw.mu.Unlock()
 	if !fw.seen {
-		return "", info
+		return "", info, rb
 	}
+	// Start stamps a new Start (and writes Running); End stamps a new End (and writes the final status);
+	// Recovery's own write before PlanBypassChecks changes neither instant
 	switch {
-	case fw.status != workflow.Running:
-		entry = "EEnd"
-	case fw.start.Equal(img.State.Start):
-		entry = "EBypass"
-	default:
+	case !fw.start.Equal(rb.State.Start):
 		entry = "EStart"
+	case !fw.end.Equal(rb.State.End):
+		entry = "EEnd"
+	default:
+		entry = "EBypass"
 	}
-	return entry, info
+	info["first_plan_write_status"] = stTerm(fw.status)
+	return entry, info, rb
 }
 
-func child(lo, hi int, probeEvery int, out string) {
-	w, err := core.NewWriter(out)
+// setNonce rewrites the nonce carried by every request of p and returns the previous one.
+func setNonce(p *workflow.Plan, nonce string) (old string) {
+	all, _ := actionsOf(p)
+	for _, a := range all {
+		if r, ok := a.Req.(hplug.Req); ok {
+			old = r.Nonce
+			r.Nonce = nonce
+			a.Req = r
+		}
+	}
+	return old
+}
+
+// lineWriter writes one case per line, unbuffered: what a child wrote survives its death.
+type lineWriter struct{ f *os.File }
+
+func (w *lineWriter) Put(c core.Case) {
+	b, _ := json.Marshal(c)
+	w.f.Write(append(b, '\n'))
+}
+
+// childArb: arbitrary Running plan images put into a real store, then a real recovery: the entry point for every
+// status fixPlan can leave the plan in (Stopped included), which reachable images do not all produce.
+func childArb(lo, hi int, out string) {
+	f0, err := os.Create(out)
 	if err != nil {
 		fmt.Fprintln(os.Stderr, err)
 		os.Exit(2)
 	}
-	defer w.Close()
+	w := &lineWriter{f0}
+	root := core.NewRand(core.Seed() ^ 0xe417)
+	set := hplug.NewSet()
+	set.Action.SetBehaviour(behave)
+	set.Check.SetBehaviour(behave)
+	f := newFixer(set)
+	for i := lo; i < hi; i++ {
+		g := &gen{r: root.Fork(uint64(i)), set: set}
+		pr := profiles[1+i%(len(profiles)-1)]
+		o := plangen.Opts{GroupP: []float64{0.2, 0.5}[i%2], MaxBlocks: 1 + i%3, MaxSeqs: 1 + (i/3)%2, MaxActions: 1 + (i/5)%3, MaxCheckActions: 2}
+		p, num := g.shape(o)
+		all, _ := actionsOf(p)
+		g.fillPlan(p, pr)
+		p.State.Status = workflow.Running
+		if p.State.Start.IsZero() {
+			p.State.Start = t0
+		}
+		switch i % 4 {
+		case 0: // make a block come back Stopped: a Running sequence with a Stopped action in a Running block
+			b := p.Blocks[g.r.Intn(len(p.Blocks))]
+			b.State.Status = workflow.Running
+			for _, c := range groupsOfBlock(b)[:4] {
+				if c != nil {
+					c.State.Status = workflow.NotStarted
+				}
+			}
+			sq := b.Sequences[g.r.Intn(len(b.Sequences))]
+			sq.State.Status = workflow.Running
+			sq.Actions[0].State.Status = workflow.Stopped
+			fallthrough
+		case 1: // get past the plan's own early returns
+			for _, c := range groupsOfPlan(p)[:4] {
+				if c != nil && (c.State.Status == workflow.Completed || c.State.Status == workflow.Failed) {
+					c.State.Status = workflow.NotStarted
+				}
+			}
+		}
+		script := g.script(all, num, 0.3)
+		entry, info, rb := probeEntry(set, p, g.nonce+"-probe", script, false)
+		if rb == nil {
+			w.Put(core.Case{ID: fmt.Sprintf("arb-entry-%d", i), Kind: "probe-error", Note: fmt.Sprint(info["error"]), Input: map[string]any{"seed": core.Seed(), "index": i}})
+			continue
+		}
+		n := number(rb)
+		before := plnTerm(rb, n)
+		setNonce(rb, g.nonce+"-hooks")
+		coq, obs, note := f.fixPlanCase(rb, n, g.nonce+"-hooks", script, entry)
+		mix := obs["status_mix_before"]
+		delete(obs, "status_mix_before")
+		obs["recovery"] = info
+		w.Put(core.Case{ID: fmt.Sprintf("arb-entry-%d", i), Kind: "arb-entry", Coq: coq, Nontrivial: true, Hash: core.Hash("arb-entry", coq),
+			Dist:  map[string]any{"profile": pr.name, "status_mix": mix, "probed": entry},
+			Input: map[string]any{"seed": core.Seed(), "index": i, "before": before}, Observed: obs, Note: note})
+	}
+	os.Exit(0) // do not wait for the recoveries still running in the background
+}
+
+func child(lo, hi int, probeEvery int, out string) {
+	f0, err := os.Create(out)
+	if err != nil {
+		fmt.Fprintln(os.Stderr, err)
+		os.Exit(2)
+	}
+	w := &lineWriter{f0}
 	ctx := context.Background()
 	root := core.NewRand(core.Seed() ^ 0x5eed)
 	set := hplug.NewSet()
@@ -1072,7 +1232,6 @@ func child(lo, hi int, probeEvery int, out string) {
 		sv.mu.Unlock()
 		if werr != nil {
 			w.Put(core.Case{ID: fmt.Sprintf("run-%d", i), Kind: "run-hang", Coq: "", Note: "the uninterrupted run did not finish in 8 s", Input: map[string]any{"seed": core.Seed(), "index": i}})
-			w.Close()
 			os.Exit(4) // tainted process: the parent restarts after this run
 		}
 		seen := map[string]bool{}
@@ -1086,7 +1245,7 @@ func child(lo, hi int, probeEvery int, out string) {
 			entry, info := "", map[string]any(nil)
 			running := img.State.Status == workflow.Running
 			if running && probeEvery > 0 && len(seen)%probeEvery == 0 {
-				entry, info = probeEntry(set, img, g.nonce+"-probe", script)
+				entry, info, _ = probeEntry(set, img, g.nonce+"-probe", script, true)
 			}
 			coq, obs, note := f.fixPlanCase(img, n, g.nonce, script, entry)
 			mix := obs["status_mix_before"]
@@ -1111,6 +1270,8 @@ func main() {
 	probe := flag.Int("probe-every", 4, "observe the entry point with a real recovery on every k-th distinct Running image (0: never)")
 	out := flag.String("out", "-", "output file (JSONL)")
 	isChild := flag.String("child", "", "lo:hi (internal)")
+	isChildArb := flag.String("childarb", "", "lo:hi (internal)")
+	nentry := flag.Int("entry", 60, "arbitrary Running images put through a real recovery to observe the entry point")
 	par := flag.Int("par", 8, "children in parallel")
 	flag.Parse()
 
@@ -1118,6 +1279,13 @@ func main() {
 		var lo, hi int
 		fmt.Sscanf(*isChild, "%d:%d", &lo, &hi)
 		child(lo, hi, *probe, *out)
+		return
+	}
+
+	if *isChildArb != "" {
+		var lo, hi int
+		fmt.Sscanf(*isChildArb, "%d:%d", &lo, &hi)
+		childArb(lo, hi, *out)
 		return
 	}
 
@@ -1132,7 +1300,10 @@ func main() {
 	arbitrary(w, *narb)
 
 	// children: batches of runs; a child that dies is restarted after the run it died in
-	type job struct{ lo, hi int }
+	type job struct {
+		lo, hi int
+		mode   string
+	}
 	batch := 3
 	var jobs []job
 	for lo := 0; lo < *nruns; lo += batch {
@@ -1140,7 +1311,14 @@ func main() {
 		if hi > *nruns {
 			hi = *nruns
 		}
-		jobs = append(jobs, job{lo, hi})
+		jobs = append(jobs, job{lo, hi, "-child"})
+	}
+	for lo := 0; lo < *nentry; lo += 10 {
+		hi := lo + 10
+		if hi > *nentry {
+			hi = *nentry
+		}
+		jobs = append(jobs, job{lo, hi, "-childarb"})
 	}
 	self, _ := os.Executable()
 	tmp, _ := os.MkdirTemp("", "fixprobe")
@@ -1157,7 +1335,7 @@ func main() {
 			lo := j.lo
 			for lo < j.hi {
 				path := fmt.Sprintf("%s/c%d_%d.jsonl", tmp, ji, lo)
-				cmd := exec.Command(self, "-child", fmt.Sprintf("%d:%d", lo, j.hi), "-probe-every", fmt.Sprint(*probe), "-out", path)
+				cmd := exec.Command(self, j.mode, fmt.Sprintf("%d:%d", lo, j.hi), "-probe-every", fmt.Sprint(*probe), "-out", path)
 				var errb strings.Builder
 				cmd.Stderr = &errb
 				cmd.Env = os.Environ()
